@@ -44,4 +44,7 @@ def run(ctx, rep):
     rep.run(RG.rule_word_boundary, ctx, rep, "P5")
     rep.run(RX.rule_counter_key_identity, ctx, rep, "P6")
     rep.run(RI.rule_positions_of_the_list_itself, ctx, rep, "P7")
+    # P8: a parameter named like the reserved word (`ThisType`) is still a parameter: reserved-word handling comes after the parameter tests (= C02/S6)
+    rep.run(RI.rule_this, ctx, rep, "P8")
+    rep.run(RI.rule_instantiation_depends_on_itself_only, ctx, rep, "P9")
     rep.run(RF.rule_locals_defined, ctx, rep, "U1", packages=("gtwrap/template_instantiator",), min_functions=3)
